@@ -234,13 +234,19 @@ def _sym_box(nm, shape, inp):
     return tuple(box)
 
 
+def _mat_key(dev_name, k, n):
+    """dict key of the k-th material (ascending permittivity): alphabetically DESCENDING in k"""
+    return f"{dev_name}_{'zyxwvu'[k] if n <= 6 else n - 1 - k}_material"
+
+
 def _make_device(name, kind, box, mats9, cfg, chain_as_dict=True):
     import fdtdx
     from fdtdx.objects.device.device import Device
     from fdtdx.typing import ParameterType
 
-    # materials are handed over in DESCENDING order so that the library's ordering is exercised
-    mats = {f"{name}_m{k}": fdtdx.Material(permittivity=m) for k, m in reversed(list(enumerate(mats9)))}
+    # materials are handed over in DESCENDING permittivity order, both by insertion and by key name
+    # (pytree flattening sorts dict keys), so that the library's own ordering is exercised
+    mats = {_mat_key(name, k, len(mats9)): fdtdx.Material(permittivity=m) for k, m in reversed(list(enumerate(mats9)))}
     if kind in ("continuous", "etched"):
         chain = [] if chain_as_dict else [ChainStub(ParameterType.CONTINUOUS, as_dict=False)]
     elif kind == "binary":
@@ -291,7 +297,7 @@ def _build(c, inp, tier, dev_kinds, mat_kind=None, n_param_sets=1, chain_as_dict
             from fdtdx.objects.device.device import Device
             from fdtdx.typing import ParameterType
 
-            ms = {f"{name}_m{j}": m for j, m in reversed(list(enumerate(concrete_mats[k])))}
+            ms = {_mat_key(name, j, len(concrete_mats[k])): m for j, m in reversed(list(enumerate(concrete_mats[k])))}
             chain = [] if kind in ("continuous", "etched") else [ChainStub(ParameterType.BINARY if kind == "binary" else ParameterType.DISCRETE)]
             rd = scene._place(Device(name=name, materials=ms, param_transforms=chain, partial_voxel_grid_shape=(1, 1, 1), use_etching=(kind == "etched")), box, cfg)
         else:
@@ -373,6 +379,16 @@ def _run_apply(c, arrays, objs, P, tag):
     return new_arrays
 
 
+def _prove_same(c, name, got, want):
+    """got is the very same array value as want (identity short-cut, else element-wise)"""
+    if got is want:
+        c.prove(name, True)
+    elif got is None or want is None:
+        c.prove(name, False)
+    else:
+        prove_arrays_equal(name, got, want)
+
+
 def _note(inp, **kw):
     inp.note("spec", {k: (v if isinstance(v, (int, str, bool, type(None))) else list(v) if isinstance(v, (list, tuple)) and all(isinstance(x, (int, str, bool)) for x in v) else str(v)) for k, v in kw.items()})
 
@@ -419,7 +435,7 @@ def _cell_task(tier, kind, mat_kind=None, chain_as_dict=True):
         prove_arrays_equal("frame:cells-outside-the-device-unchanged", out, S["inv_eps"], where=lambda idx: A._vnot(ins(idx)))
         prove_arrays_equal("post:whole-array-equals-documented-fold", out, spec)
         if S["i0"] is not None:
-            c.prove("frame:etch-backup-untouched", out_arrays.initial_inv_permittivities is S["i0"])
+            _prove_same(c, "frame:etch-backup-untouched", out_arrays.initial_inv_permittivities, S["i0"])
             prove_arrays_equal("inv:outside-devices-equals-backup", out, S["i0"], where=lambda idx: A._vnot(ins(idx)))
         else:
             c.prove("frame:no-backup-created", out_arrays.initial_inv_permittivities is None)
@@ -450,7 +466,8 @@ def _history_task(tier, kinds, mat_kind=None):
                 alone = _fold(tier, S["shape"], base, [last], rhos2)
                 prove_arrays_equal("overlap:last-device-in-list-order-wins", a12.inv_permittivities, alone, where=lambda idx: last.inside(idx[1:]))
         if S["i0"] is not None:
-            c.prove("frame:etch-backup-untouched", a12.initial_inv_permittivities is S["i0"] and a1.initial_inv_permittivities is S["i0"])
+            _prove_same(c, "frame:etch-backup-untouched(p1)", a1.initial_inv_permittivities, S["i0"])
+            _prove_same(c, "frame:etch-backup-untouched(p1;p2)", a12.initial_inv_permittivities, S["i0"])
 
     return body
 
@@ -812,8 +829,15 @@ def _budgeted(body):
     return wrapped
 
 
+def _raised(c, e):
+    """the contracts promise a result for every valid input: an exception raised by the repository
+    code on a feasible path refutes that (Unsupported / engine errors never get here)"""
+    c.prove(f"no-exception-on-valid-input(raised {type(e).__name__}: {str(e)[:120]})", False)
+
+
 def _T(body, **kw):
     kw.setdefault("max_paths", 256)
+    kw.setdefault("on_exception", _raised)
     return Task(_budgeted(body), **kw)
 
 
@@ -844,8 +868,8 @@ def tasks(tier, seed):
         out["history2/t9/continuous+etched"] = _T(_history_task(9, ("continuous", "etched")))
         out["history2/t9/etched+discrete"] = _T(_history_task(9, ("etched", "discrete")))
     else:
-        out["history3/t1/etched+continuous+etched"] = _T(_history_task(1, ("etched", "continuous", "etched")))
-        out["history3/t3/discrete+etched+continuous"] = _T(_history_task(3, ("discrete", "etched", "continuous")))
+        out["history3/t1/etched+continuous+etched"] = _T(_history_task(1, ("etched", "continuous", "etched")), max_paths=2048)
+        out["history3/t3/discrete+etched+continuous"] = _T(_history_task(3, ("discrete", "etched", "continuous")), max_paths=2048)
     for variant in DISP_CFG:
         out[f"dispersive/{variant}/discrete3"] = _T(_dispersive_task(variant, 3, "discrete"))
         out[f"dispersive/{variant}/binary"] = _T(_dispersive_task(variant, 2, "binary"))
@@ -961,7 +985,7 @@ def _replay_scene(spec, witness, rng, use_witness):
             if any(a[0] >= b[0] for a, b in zip(mats9, mats9[1:])):
                 mats9 = [tuple(x + (3.0 * j if q in DIAG else 0.0) for q, x in enumerate(m)) for j, m in enumerate(mats9)]
             mats = [fdtdx.Material(permittivity=m) for m in mats9]
-        ms = {f"dev{k}_m{j}": m for j, m in reversed(list(enumerate(mats)))}
+        ms = {_mat_key(f"dev{k}", j, len(mats)): m for j, m in reversed(list(enumerate(mats)))}
         chain = [] if kind in ("continuous", "etched") else [ChainStub(ParameterType.BINARY if kind == "binary" else ParameterType.DISCRETE)]
         rd = scene._place(Device(name=f"dev{k}", materials=ms, param_transforms=chain, partial_voxel_grid_shape=(1, 1, 1), use_etching=(kind == "etched")), tuple(box), cfg)
         real_devs.append(rd)
@@ -1019,9 +1043,12 @@ def _replay_scene(spec, witness, rng, use_witness):
         P1 = {f"dev{k}": sets[0][k] for k in range(len(devs))}
         P2 = {f"dev{k}": sets[1][k] for k in range(len(devs))}
         key = jax.random.PRNGKey(0)
-        a1 = apply_params(arrays, objs, P1, key=key)[0]
-        a12 = apply_params(a1, objs, P2, key=key)[0]
-        a2 = apply_params(arrays, objs, P2, key=key)[0]
+        try:
+            a1 = apply_params(arrays, objs, P1, key=key)[0]
+            a12 = apply_params(a1, objs, P2, key=key)[0]
+            a2 = apply_params(arrays, objs, P2, key=key)[0]
+        except Exception as e:  # noqa: BLE001
+            return [(f"real apply_params raised {type(e).__name__}: {str(e)[:200]}", float("inf"))], f"tier={tier} grid={shape} devices={[(k_, b_) for k_, b_, _ in devs]}"
     finally:
         Device.__call__ = orig
     base = i0 if i0 is not None else x
@@ -1082,6 +1109,55 @@ def _replay_expand(spec, witness, rng):
     return bad
 
 
+def _replay_call(spec, rng):
+    """the REAL Device.__call__ (identity chain and a two-step concrete chain) under real JAX"""
+    import jax.numpy as jnp
+    import numpy as np
+
+    import fdtdx
+    from fdtdx.config import SimulationConfig
+    from fdtdx.core.grid import UniformGrid
+    from fdtdx.objects.device.device import Device
+
+    bad = []
+    cfg = SimulationConfig(time=1e-15, grid=UniformGrid(spacing=2.0e-8), backend="cpu", dtype=jnp.float64)
+    mats = {"a": fdtdx.Material(permittivity=2.0), "b": fdtdx.Material(permittivity=5.0)}
+    seen = []
+
+    class T:
+        def __init__(self, tag, shp):
+            self.tag, self._input_shape, self._output_shape = tag, {"params": shp}, {"params": shp}
+
+        def __call__(self, params, **kw):
+            seen.append((self.tag, kw))
+            x = params["params"]
+            return {"params": x * 2.0 + 1.0 if self.tag == "f" else x * x}
+
+    for trial in range(4):
+        m = tuple(int(rng.integers(1, 4)) for _ in range(3))
+        g = tuple(int(rng.integers(1, 4)) for _ in range(3))
+        x = rng.uniform(0, 1, size=m)
+        for mode in ("identity", "chain"):
+            chain = [] if mode == "identity" else [T("f", m), T("g", m)]
+            dev = scene._place(Device(name="dev", materials=mats, param_transforms=chain, partial_voxel_grid_shape=(1, 1, 1)), tuple((1, 1 + m[a] * g[a]) for a in range(3)), cfg)
+            dev = dev.aset("_single_voxel_grid_shape", g)
+            want = x if mode == "identity" else (x * 2.0 + 1.0) ** 2
+            wexp = np.empty(tuple(m[a] * g[a] for a in range(3)))
+            for idx in np.ndindex(*wexp.shape):
+                wexp[idx] = want[tuple(idx[a] // g[a] for a in range(3))]
+            try:
+                got0 = np.asarray(dev(jnp.asarray(x)))
+                got1 = np.asarray(dev({"params": jnp.asarray(x)}, expand_to_sim_grid=True))
+            except Exception as e:  # noqa: BLE001
+                bad.append(f"{mode} chain, design {m}, voxel {g}: real Device.__call__ raised {type(e).__name__}: {str(e)[:150]}")
+                continue
+            if got0.shape != want.shape or np.max(np.abs(got0 - want)) > 1e-12:
+                bad.append(f"{mode} chain, design {m}, voxel {g}: unexpanded result has shape {got0.shape}, expected chain(params) of shape {want.shape}")
+            if got1.shape != wexp.shape or np.max(np.abs(got1 - wexp)) > 1e-12:
+                bad.append(f"{mode} chain, design {m}, voxel {g}: expanded result has shape {got1.shape}, expected expand(chain(params)) of shape {wexp.shape}")
+    return bad
+
+
 def _replay_pipeline(spec, witness, rng):
     """real apply_params + real Device.__call__ (identity chain) + real expand_matrix"""
     import jax
@@ -1121,7 +1197,11 @@ def _replay_pipeline(spec, witness, rng):
         x = rng.uniform(0.2, 1.0, size=(tier, *shape))
         arrays = ArrayContainer(fields=FieldState(E=jnp.zeros((3, *shape)), H=jnp.zeros((3, *shape)), psi_E={}, psi_H={}), inv_permittivities=jnp.asarray(x), inv_permeabilities=1.0, detector_states={}, recording_state=None)
         design = rng.uniform(0, 1, size=m)
-        out = np.asarray(apply_params(arrays, objs, {"dev0": jnp.asarray(design)}, key=jax.random.PRNGKey(0))[0].inv_permittivities)
+        try:
+            out = np.asarray(apply_params(arrays, objs, {"dev0": jnp.asarray(design)}, key=jax.random.PRNGKey(0))[0].inv_permittivities)
+        except Exception as e:  # noqa: BLE001
+            bad.append(f"grid {shape}, device box {box}, design shape {m}, voxel {g}: real apply_params raised {type(e).__name__}: {str(e)[:150]}")
+            continue
         rho = np.empty(tuple(m[a] * g[a] for a in range(3)))
         for idx in np.ndindex(*rho.shape):
             rho[idx] = design[tuple(idx[a] // g[a] for a in range(3))]
@@ -1163,12 +1243,35 @@ def _replay_init_backup(spec, rng):
     return []
 
 
+def _spec_from_key(key):
+    """the configuration a task key stands for (used when the solver produced no model, e.g. cvc5)"""
+    p = key.split("/")
+    head = p[0]
+    if head in ("cell", "history", "history2", "history3"):
+        t = int(p[1][1:])
+        kinds = p[2].split("+")
+        mk = {"iso-materials": "iso", "diag-materials": "diag"}.get(p[3] if len(p) > 3 else "", MATKIND_OF_TIER[t])
+        return {"task": "cell" if head == "cell" else "history", "tier": t, "kinds": kinds, "mat_kind": mk}
+    if head == "dispersive":
+        kind = {"discrete3": "discrete", "binary": "binary", "continuous": "continuous"}[p[2]]
+        return {"task": "dispersive", "variant": p[1], "n_mats": 3 if p[2] == "discrete3" else 2, "kinds": [kind], "tier": DISP_CFG[p[1]][0]}
+    if head == "pipeline":
+        return {"task": "pipeline", "tier": int(p[1][1:]), "kinds": ["continuous"], "g": [int(ch) for ch in p[2][1:]]}
+    if head == "init_backup":
+        return {"task": "init_backup", "tier": int(p[1][1:]), "kinds": p[2].split("+")}
+    if head == "expand":
+        return {"task": "expand_index"} if p[1] == "index" else {"task": "expand", "ndim": int(p[1][0])}
+    if head == "call":
+        return {"task": "call", "mode": p[1]}
+    return {}
+
+
 def replay(key, obligation, witness):
     """re-run the failing configuration on the REAL code under REAL JAX (float64) with the witness
     data (first trial) and seeded random data (further trials), against an independent numpy oracle"""
     import numpy as np
 
-    spec = (witness or {}).get("notes", {}).get("spec", {}) or {}
+    spec = (witness or {}).get("notes", {}).get("spec", {}) or _spec_from_key(key)
     task = spec.get("task") or key.split("/")[0]
     rng = np.random.default_rng(18)
     try:
@@ -1180,9 +1283,12 @@ def replay(key, obligation, witness):
                 if bad:
                     return True, f"real apply_params under real JAX, {desc} ({'witness data' if trial == 0 else 'seeded random data'}): " + "; ".join(f"{n}: max relative deviation {d:.3g}" for n, d in bad)
             return False, "8 concrete runs of the real apply_params (witness + random data) agree with the numpy oracle"
-        if task in ("expand", "call"):
-            bad = _replay_expand(spec if task == "expand" else {"ndim": 3}, witness, rng)
-            return (True, "real expand_matrix: " + "; ".join(bad[:3])) if bad else (False, "real expand_matrix agrees with out[i]=in[i//g] on 6 concrete cases" + (" (Device.__call__ chain handling itself is not replayed)" if task == "call" else ""))
+        if task == "expand":
+            bad = _replay_expand(spec, witness, rng)
+            return (True, "real expand_matrix: " + "; ".join(bad[:3])) if bad else (False, "real expand_matrix agrees with out[i]=in[i//g] on 6 concrete cases")
+        if task == "call":
+            bad = _replay_call(spec, rng)
+            return (True, "real Device.__call__: " + "; ".join(bad[:3])) if bad else (False, "real Device.__call__ agrees with expand(chain(params)) on 8 concrete cases")
         if task == "expand_index":
             return False, "pure integer lemma (no code to run)"
         if task == "pipeline":
